@@ -842,8 +842,9 @@ impl<R: Clone + 'static + crate::MemoryEstimator> GlobalCache<R> {
     /// assert_eq!(cache.get("key2"), None);
     /// ```
     pub fn clear(&self) {
+        let mut o = self.order.lock();
         self.map.write().clear();
-        self.order.lock().clear();
+        o.clear();
     }
 }
 
